@@ -12,7 +12,7 @@
    theorems are about.
    Granularity: [ppoll] runs one task until it returns Pending (lock held / supplier pending) or finishes,
    exactly as Future::poll does; [pmstep] executes ONE instruction (interleavings of a multi-threaded executor).
-   Definitions only; proofs are in C12/ProgProofs.v. *)
+   Definitions only; proofs are in C12/ProgProofs.v (polls), C12/ProgFine.v (instructions), C12/ProgExec.v. *)
 From RM Require Export C12.Model.
 
 (* which public function a lookup goes through *)
